@@ -256,3 +256,27 @@ check("C03", "fault_enumeration",
            "three helpers; every enumerated single-bit corruption of a recorded array or of a transmitted message must make at "
            "least one helper reject.",
       note="Widths {3,8,20,64,256}; <= 600 (2200) records; one flipped bit per run.")
+
+check("C01", "exploration",
+      "real hybrid_protocol::<_, BA8, BA3, HV, 3, 256> on 3 x S helper contexts of a sharded TestWorld, reconstructed leader output "
+      "compared with an independent in-the-clear reference written from the property text. Inputs: all multisets of <= 3 (4) "
+      "reports over the alphabet {impression, conversion} x {match key a, b} on one shard, both security modes; every assignment of "
+      "<= 2 (3) reports to 2 and 3 shards; one 90-report input holding every group shape (single, pair II/IC/CI/CC, triple, "
+      "quadruple) with wrap-around of value (7+7, 4+4) and breakdown key (255+1, 128+128) on 1, 2, 3 shards with two "
+      "distributions, HV in {BA8, BA16}, with and without dummy-record padding; saturation inputs (36/37/40 pairs of value 7 in one "
+      "bucket). distinct_nontrivial = executed inputs holding at least one attributed pair.",
+      [{"name": "attribution", "config": "A", "test": "verif::c01::run", "workers": {"quick": 4, "thorough": 8},
+        "timeout": {"quick": 1200, "thorough": 10800},
+        "require": {"any": {"matches_reference": 60, "runs_S1": 40, "runs_S2": 10}}}],
+      assumptions=["task schedules of the composed query are not enumerated here (discharged per component in C13-C16, C19)",
+                   "the compact step-identifier implementation is not built by this check (descriptive gate only)",
+                   "HV = BA32 and DP noise are not instantiated"],
+      exhaustive=True, engine="E5 domain",
+      technique="bounded exhaustive enumeration of small inputs x shard assignments executed on the real three-helper protocol, "
+                "independent reference oracle",
+      text="Every small multiset of reports (and every assignment of reports to shards for the smallest sizes), plus inputs covering "
+           "every group shape, wrap-around and saturation, is run through the real protocol in both security modes; the combined "
+           "output shares must equal the reference attribution bucket by bucket, follower shards must contribute nothing, and the "
+           "helpers' share copies must agree.",
+      note="Small scope: <= 3 (4) reports exhaustively, 90-report shape input, <= 3 (5) shards; see the known finding on shards that "
+           "run out of rows.")
